@@ -123,7 +123,9 @@ def _cases(draw, tier):
     for n in names:
         if srcs[n] == 'define':
             if draw(st.booleans()):
-                lines.append(('use', draw(_use(names, looks, shadow_only=shadow))))
+                # (symbols defined from the start may be used here too: they expand to names that are still plain words)
+                early = shadow + [m for m in names if srcs[m] in ('config', 'cli')]
+                lines.append(('use', draw(_use(names, looks, shadow_only=early))))
             lines.append(('define', n))
         if draw(st.booleans()):
             lines.append(('use', draw(_use(names, looks, shadow_only=None))))
